@@ -119,14 +119,14 @@ func (c *Ctx) runBounds(r *Rule, scope []*ssa.Function) {
 	for _, fn := range scope {
 		bf := c.bounds(fn)
 		obs := bf.obligations()
-		keys := obKeys(c, fn, obs)
+		keys, nkeys := obKeys(c, fn, obs)
 		for i, o := range obs {
 			r.Inst(1)
 			msg := "in bounds (difference-constraint proof)"
 			if !o.ok {
 				msg = "cannot show " + o.why + " for " + o.expr + ": with a suitable input this " + o.kind + " expression panics and takes the process down"
 			}
-			r.Ob(o.ok, keys[i], o.in.Pos(), msg)
+			r.ObN(o.ok, keys[i], nkeys[i], o.in.Pos(), msg)
 		}
 	}
 }
